@@ -5,6 +5,7 @@
 //! mentioned with explicit unmock / default-impl responses} x argument x position in a history.
 //! Plus the partial-by-default method Termination::report.
 
+#[cfg(feature = "std")]
 use std::process::Termination;
 
 use unimock::*;
@@ -64,6 +65,10 @@ fn situations(t: M) -> Vec<(String, Vec<ClauseSpec>)> {
     ]
 }
 
+#[cfg(not(feature = "std"))]
+fn termination_cells(_: &mut Stats, _: &vh::explore::Ctx) {}
+
+#[cfg(feature = "std")]
 fn termination_cells(stats: &mut Stats, ctx: &vh::explore::Ctx) {
     use unimock::mock::std::process::TerminationMock;
     // unmentioned: partial by default -> the real report() runs (strict and partial alike)
